@@ -55,7 +55,7 @@ func (m *FrostMat) Snapshot() (Mat, error) {
 	out := &FrostMat{m.Ids, m.Th, map[party.ID]*frost.Config{}}
 	var err error
 	for id, c := range m.Cfgs {
-		if p, fr, txt := vk.Guard(func() { out.Cfgs[id] = CloneFrost(c) }); p {
+		if p, fr, txt := vk.Guard(func() { out.Cfgs[id] = RestoreFrost(c) }); p {
 			err = fmt.Errorf("encode/restore panicked in %s: %s", fr, txt)
 		}
 	}
@@ -119,7 +119,7 @@ func (m *TaprootMat) Snapshot() (Mat, error) {
 	out := &TaprootMat{m.Ids, m.Th, map[party.ID]*frost.TaprootConfig{}}
 	var err error
 	for id, c := range m.Cfgs {
-		if p, fr, txt := vk.Guard(func() { out.Cfgs[id] = CloneTaproot(c) }); p {
+		if p, fr, txt := vk.Guard(func() { out.Cfgs[id] = RestoreTaproot(c) }); p {
 			err = fmt.Errorf("encode/restore panicked in %s: %s", fr, txt)
 		}
 	}
@@ -187,7 +187,7 @@ func (m *CMPMat) Snapshot() (Mat, error) {
 	out := &CMPMat{m.Ids, m.Th, map[party.ID]*cmp.Config{}, m.Path}
 	var err error
 	for id, c := range m.Cfgs {
-		if p, fr, txt := vk.Guard(func() { out.Cfgs[id] = CloneCMP(c) }); p {
+		if p, fr, txt := vk.Guard(func() { out.Cfgs[id] = RestoreCMP(c) }); p {
 			err = fmt.Errorf("encode/restore panicked in %s: %s", fr, txt)
 		}
 	}
